@@ -82,7 +82,7 @@ def run(chk):
     if al:
         chk.validate('inline-alignment', 'Trace_Align', 'Trace_Align.cfg', al, driver='em', jobs=4)
     goods = [r for r in mm if r['kind'] == 'mstep' and r['exc'] == '' and r['comp'] == 'cacg' and r['full'][-2] >= 2]
-    good = goods[0]
+    good = goods[0] if goods else None
 
     def corrupt(r):
         for f in r['fields']:
